@@ -113,6 +113,44 @@ def h_annulus_area(kind, m):
     m.require('area is positive', reg.area > 0)
 
 
+def h_annulus_history(kind, m):
+    """an annulus answers for its CURRENT sizes: ask, re-assign every size (and the centre), ask again"""
+    from regions import CircleAnnulusPixelRegion, EllipseAnnulusPixelRegion, PixCoord
+    from vf import oracle as O
+    m.shim('regions.core.bounding_box', '_is_int', symx.sym_is_int)
+    m.shim('regions.core.bounding_box', 'int', symx.sint)
+    px, py = m.real('px'), m.real('py')
+    q = PixCoord(px, py)
+    cx, cy = m.real('cx'), m.real('cy')
+    if kind == 'circle':
+        reg = CircleAnnulusPixelRegion(PixCoord(0.5, 0.25), 1.0, 2.0)
+        reg.contains(q)
+        reg.to_mask() if not m.sym else None
+        r1, r2 = m.pos('r1'), m.pos('r2')
+        m.assume(And(r1 < r2, r2 < 1000))
+        reg.center = PixCoord(cx, cy)
+        reg.outer_radius = 1000.0
+        reg.inner_radius, reg.outer_radius = r1, r2
+        inside = And(O.disk_in(px, py, cx, cy, r2), O.disk_out(px, py, cx, cy, r1))
+        outside = Or(O.disk_out(px, py, cx, cy, r2), O.disk_in(px, py, cx, cy, r1))
+    else:
+        reg = EllipseAnnulusPixelRegion(PixCoord(0.5, 0.25), 1.0, 2.0, 0.5, 1.5)
+        reg.contains(q)
+        w1, w2, h1, h2 = m.pos('w1'), m.pos('w2'), m.pos('h1'), m.pos('h2')
+        m.assume(And(w1 < w2, h1 < h2, w2 < 1000, h2 < 1000))
+        reg.center = PixCoord(cx, cy)
+        reg.outer_width, reg.outer_height = 1000.0, 1000.0
+        reg.inner_width, reg.inner_height, reg.outer_width, reg.outer_height = w1, h1, w2, h2
+        inside = And(O.ellipse_in(px, py, cx, cy, w2, h2, 1.0, 0.0), O.ellipse_out(px, py, cx, cy, w1, h1, 1.0, 0.0))
+        outside = Or(O.ellipse_out(px, py, cx, cy, w2, h2, 1.0, 0.0), O.ellipse_in(px, py, cx, cy, w1, h1, 1.0, 0.0))
+    ans = reg.contains(q)
+    m.require('after re-assignment: strictly between the new outlines => member', Implies(inside, ans))
+    m.require('after re-assignment: strictly outside the new ring => not a member', Implies(outside, Not(ans)))
+    bb = reg.bounding_box
+    ob = reg._outer_region.bounding_box
+    m.require('after re-assignment: the box is that of the new outer outline', And(bb.ixmin == ob.ixmin, bb.ixmax == ob.ixmax, bb.iymin == ob.iymin, bb.iymax == ob.iymax))
+
+
 def h_compound_misc(m):
     from regions import CirclePixelRegion, PixCoord, CompoundPixelRegion, RegionMeta
     a = CirclePixelRegion(PixCoord(1.0, 2.0), 3.0, meta=RegionMeta({'label': 'A'}))
@@ -211,6 +249,9 @@ def harnesses(tier):
     from checks import C01, C15
     for iname, inc in C01.INCLUDES:
         hs.append((f'annulus-membership/circle/include={iname}', P(C01.h_annulus, 'circle', inc, 'scalar', 'deg')))
+        if iname == 'absent':
+            hs.append(('annulus-history/circle', P(h_annulus_history, 'circle')))
+            hs.append(('annulus-history/ellipse', P(h_annulus_history, 'ellipse')))
         if not q or iname in ('absent', 'False'):
             hs.append((f'annulus-membership/ellipse/include={iname}', P(C01.h_annulus, 'ellipse', inc, 'scalar', 'deg')))
             hs.append((f'annulus-membership/rectangle/include={iname}', P(C01.h_annulus, 'rectangle', inc, 'scalar', 'deg')))
